@@ -220,6 +220,18 @@ def run_case(case, seed):
                 if lead == ("basis",):
                     break  # one order suffices for the big basis block
 
+    # ---- single-tensor entry point geom.tensor_times_gg: det(g)^p g^{(x)k} t for one pixel's tensor (the image with one
+    #      pixel per axis is the reference)
+    if all(n == 1 for n in sp) or (D > 1 and tuple(sp) == (1,) * (D - 1) + (2,)):
+        t0 = ident((D,) * k, 3)
+        for g in B:
+            got = np.asarray(geom.tensor_times_gg(jnp.asarray(t0), p, np.array(g)))
+            exp = ref_action(t0.reshape((1,) * D + t0.shape), p, g, D).reshape(t0.shape)
+            evals += 1
+            if got.shape != exp.shape or not np.array_equal(got, exp):
+                bad(f"C02/entry/tensor_times_gg/{gclass(g)}", f"tensor_times_gg != det(g)^p g^(x)k t for g={g.tolist()}", g=g.tolist())
+                break
+
     # ---- object history: a multi-image that has already been transformed (and asked for its extents) gets its blocks
     #      replaced in place (item assignment) by images of OTHER extents with the same pixel count; the action on the
     #      re-filled object must again be the defining formula for its current contents
